@@ -10,6 +10,13 @@
 #include "vf.h"
 #include "ref.h"
 
+/* -DNESTED: object- and array-valued members carry members of their own (one nested level), on
+ * both sides of a JSON set: what distinguishes "overwrite the member" from "merge into it" */
+#ifdef NESTED
+#define NEST_DEPTH 1
+#else
+#define NEST_DEPTH 0
+#endif
 static const char *const alpha[] = { "a", "b", "c" };
 static const char *const palpha[] = { "a", "z" };
 static json_t *parsed;            /* what "the parser" yields for the JSON text handed in */
@@ -25,7 +32,7 @@ json_t *vf_parse(unsigned call_no, const char *buf, size_t len, size_t flags)
 	if (shape == 1)
 		parsed = vj_havoc_array(2, 0);
 	else if (shape == 2)
-		parsed = vj_havoc_object(palpha, 2, 0);
+		parsed = vj_havoc_object(palpha, 2, NEST_DEPTH);
 	else
 		parsed = NULL;
 	/* keep a reference for the oracle: the real code consumes its own reference */
@@ -77,7 +84,8 @@ int main(void)
 	json_t *existing;
 	size_t pre_size;
 	int pre_has_a;
-	json_type ex_type;
+	json_type ex_type, ex_a_type;
+	unsigned ex_a_members;
 
 	vf_cls = VF_CLS_BUILDER;
 	vf_install_alloc();
@@ -93,7 +101,10 @@ int main(void)
 	__CPROVER_assume(target == ONLY_TARGET);
 #endif
 	/* arbitrary pre-state: any subset of {a,b,c} present with values of any JSON type */
-	pre = vj_havoc_object(alpha, 3, 0);
+	pre = vj_havoc_object(alpha, 3, NEST_DEPTH);
+#ifdef NESTED
+	__CPROVER_assume(ty == JWT_VALUE_JSON);
+#endif
 	memset(&tok, 0, sizeof(tok));
 	tok.headers = json_object();
 	tok.claims = json_object();
@@ -113,6 +124,8 @@ int main(void)
 	pre_size = json_object_size(expect);
 	pre_has_a = json_object_get(expect, "a") != NULL;
 	ex_type = existing ? existing->type : JSON_NULL;
+	ex_a_type = pre_has_a ? json_object_get(expect, "a")->type : JSON_NULL;
+	ex_a_members = pre_has_a ? VJ(json_object_get(expect, "a"))->nk : 0;
 
 	memset(&jv, 0, sizeof(jv));
 	jv.type = (jwt_value_type_t)ty;
@@ -181,10 +194,16 @@ int main(void)
 			PROP(r == JWT_VALUE_ERR_INVALID, "C15: an unknown value type is INVALID");
 		}
 		PROP(vj_equal(expect, *slot), "C15: after set the object equals the reference map (a failed set changes nothing)");
+#ifdef NESTED
+		REACH_OP0(r == JWT_VALUE_ERR_NONE && !name_ok && jv.replace && pre_has_a && ex_a_type == JSON_OBJECT && ex_a_members > 0 &&
+			  parsed && json_object_get(parsed, "a") && json_object_get(parsed, "a")->type == JSON_OBJECT,
+			  "whole-object replace over an object-valued member that has members");
+#else
 		REACH_OP0(r == JWT_VALUE_ERR_EXIST, "EXIST");
 		REACH_OP0(r == JWT_VALUE_ERR_NONE && existing && ty == JWT_VALUE_INT && ex_type == JSON_STRING, "replace across types");
 		REACH_OP0(r == JWT_VALUE_ERR_NONE && ty == JWT_VALUE_JSON && !name_ok && !jv.replace && pre_has_a, "merge missing-only over an existing member");
 		REACH_OP0(r == JWT_VALUE_ERR_INVALID && ty == JWT_VALUE_JSON && parsed && parsed->type == JSON_ARRAY, "array refused for whole-object set");
+#endif
 	} else if (opk == 1) {
 		/* ------------------------------------------------------------ get */
 		switch (target) {
